@@ -248,6 +248,7 @@ func checkC19(p *core.Program, r *core.Report) {
 	r.Rule("O19.1", "main: the error of app.Run leads to a failing exit (zerolog Fatal / os.Exit(non-zero) / panic) on its non-nil edge")
 	r.Rule("O19.2", "command actions: every truth-bearing fallible call reaches the action's return on every path where it failed")
 	r.Rule("O19.3", "mode-taking commands: no success (or possibly-nil) return is reachable when mode is neither accepted value")
+	r.Rule("O19.9", "verify: the checked hash is --input-hash parsed with (*big.Int).SetString(·, 0)")
 	r.Rule("O19.4", "verify: the verifier's error is the action's result (instance of O19.2 on Verify* sites)")
 	r.Rule("O19.5", "prove: exactly one stdout write site, printing the marshalled proof, on every success path exactly once and on no error path")
 	r.Rule("O19.8", "prove and verify decode the whole of stdin (read to end of stream), not one line / token / Read of it")
@@ -449,6 +450,118 @@ func checkC19(p *core.Program, r *core.Report) {
 	}
 	r.Floor("mode-taking commands", 4)
 
+	// ---- O19.9: the hash verify checks against is --input-hash parsed with SetString(·, 0): that grammar accepts every
+	// spelling the tool itself emits ("0x"+Text(16) drops leading zero digits; decimal) — a stricter parser (hex.Decode
+	// wants an even number of digits) makes verify exit non-zero on a valid proof for the hashes it cannot read
+	for _, c := range cmds {
+		if c.Name != "verify" || c.Action.Node == nil {
+			continue
+		}
+		act := actionSSA(p, c)
+		if act == nil {
+			continue
+		}
+		psT := provingSystemType(p)
+		var fns []*ssa.Function
+		var coll func(f *ssa.Function)
+		coll = func(f *ssa.Function) {
+			fns = append(fns, f)
+			for _, a := range f.AnonFuncs {
+				coll(a)
+			}
+		}
+		coll(act)
+		nSites := 0
+		for _, f := range fns {
+			for _, b := range f.Blocks {
+				for _, in := range b.Instrs {
+					vc, ok := in.(*ssa.Call)
+					if !ok || vc.Common().StaticCallee() == nil {
+						continue
+					}
+					callee := vc.Common().StaticCallee()
+					if callee.Signature.Recv() == nil || psT == nil || namedOf(callee.Signature.Recv().Type()) != psT || callee.Signature.Results().Len() != 1 {
+						continue
+					}
+					var hashArg ssa.Value
+					for _, a := range vc.Common().Args[1:] {
+						if isBigIntType(a.Type()) {
+							hashArg = a
+						}
+					}
+					if hashArg == nil {
+						continue
+					}
+					nSites++
+					cn := "main.cmd:verify: --input-hash reaches " + callee.Name() + " through SetString(·, 0)"
+					ld, isLoad := hashArg.(*ssa.UnOp)
+					var obj *ssa.Alloc
+					scanFns := fns
+					if isLoad {
+						obj, _ = ld.X.(*ssa.Alloc)
+						if obj == nil {
+							// a *big.Int produced by an in-repo helper (parseHash(s) (*big.Int, error)): the object it allocates
+							if a := allocBehind(ld.X, 0, 0); a != nil {
+								obj = a
+								scanFns = append(append([]*ssa.Function{}, fns...), a.Parent())
+							}
+						}
+					}
+					if obj == nil {
+						r.Undecided("O19.9", cn, p.Pos(vc.Pos()), "the hash handed to the verifier is not a big.Int this command allocates")
+						continue
+					}
+					var probs []string
+					nSet := 0
+					for _, g := range scanFns {
+						for _, gb := range g.Blocks {
+							for _, gi := range gb.Instrs {
+								mc, ok := gi.(*ssa.Call)
+								if !ok || mc.Common().StaticCallee() == nil || len(mc.Common().Args) == 0 || bigObject(mc.Common().Args[0], 0) != ssa.Value(obj) {
+									continue
+								}
+								m := mc.Common().StaticCallee()
+								if m.Signature.Recv() == nil || !isBigIntType(m.Signature.Recv().Type()) || bigIntReadOnly[m.Name()] {
+									continue
+								}
+								if m.Name() != "SetString" || len(mc.Common().Args) != 3 {
+									probs = append(probs, "the hash is set with "+m.Name()+" at "+p.Pos(mc.Pos())+", not parsed with SetString")
+									continue
+								}
+								nSet++
+								if k, ok := mc.Common().Args[2].(*ssa.Const); !ok || k.Value == nil || constantInt(k.Value) != 0 {
+									probs = append(probs, "SetString at "+p.Pos(mc.Pos())+" does not use base 0 (the tool prints 0x-prefixed hexadecimal; decimal must stay accepted)")
+								}
+								src, _ := mc.Common().Args[1].(*ssa.Call)
+								if src == nil {
+									for _, o := range ssaOriginsIP(p, mc.Common().Args[1], func(*ssa.Function) bool { return true }) {
+										if c2, ok := o.V.(*ssa.Call); ok {
+											src = c2
+										}
+									}
+								}
+								okSrc := false
+								if src != nil && src.Common().StaticCallee() != nil && src.Common().StaticCallee().Name() == "String" && len(src.Common().Args) == 2 && isCLIContext(src.Common().Args[0].Type()) {
+									if k, ok := src.Common().Args[1].(*ssa.Const); ok && k.Value != nil && k.Value.Kind() == constant.String && constant.StringVal(k.Value) == "input-hash" {
+										okSrc = true
+									}
+								}
+								if !okSrc {
+									probs = append(probs, "SetString at "+p.Pos(mc.Pos())+" does not parse context.String(\"input-hash\") itself")
+								}
+							}
+						}
+					}
+					if nSet == 0 && len(probs) == 0 {
+						probs = append(probs, "the hash is never parsed from --input-hash")
+					}
+					r.Check(len(probs) == 0, "O19.9", cn, p.Pos(vc.Pos()), "the verified hash is inputHash.SetString(context.String(\"input-hash\"), 0)", strings.Join(probs, "; "))
+				}
+			}
+		}
+		r.Count("verify hash sites", nSites)
+		r.Floor("verify hash sites", 1)
+	}
 	// ---- O19.5
 	var prove, verify, gen *cliCommand
 	for i := range cmds {
@@ -1031,4 +1144,36 @@ func decoratorKeepsVerdict(deco *ssa.Function) string {
 		return "no return found in the decorator"
 	}
 	return ""
+}
+
+// allocBehind: the allocation a pointer value denotes, through tuple extraction and the returns of in-repo helpers.
+func allocBehind(v ssa.Value, idx, depth int) *ssa.Alloc {
+	if depth > 6 {
+		return nil
+	}
+	switch x := v.(type) {
+	case *ssa.Alloc:
+		return x
+	case *ssa.Extract:
+		return allocBehind(x.Tuple, x.Index, depth+1)
+	case *ssa.Phi:
+		for _, e := range x.Edges {
+			if a := allocBehind(e, idx, depth+1); a != nil {
+				return a
+			}
+		}
+	case *ssa.Call:
+		f := x.Common().StaticCallee()
+		if f == nil || len(f.Blocks) == 0 || !core.InRepo(pkgPathOf(f)) {
+			return nil
+		}
+		for _, b := range f.Blocks {
+			if ret, ok := b.Instrs[len(b.Instrs)-1].(*ssa.Return); ok && idx < len(ret.Results) {
+				if a := allocBehind(ret.Results[idx], 0, depth+1); a != nil {
+					return a
+				}
+			}
+		}
+	}
+	return nil
 }
